@@ -82,7 +82,7 @@ MANIFEST = {
             "sampled states, long chains of the env's own random-move sampler incl. step_to_solution, and the bundled DACT / "
             "NeuOpt / N2S policies stepping the env - was checked by a shadow monitor that keeps its own running minimum and "
             "recomputes tour validity, lengths, reward and visiting order independently. Exploration over instances x move "
-            "histories; per sampled state the move set is enumerated completely.",
+            "histories; per sampled state the move set is enumerated completely. Also: get_current_solution / get_best_solution / _get_linked_list_solution against the walked tours, train-phase policy moves, the own best tour handed back uncopied (n-step PPO's curriculum).",
     "note": "Trusted base: vlib/improve.py (cycle walk + float64 length).",
     "technique": "runtime monitoring: shadow-state monitor (running minimum, reward ledger) + structural invariant check after every transition",
     "design_ref": "DESIGN.md section 4 / C09",
